@@ -700,6 +700,86 @@ func (fv *FuncVC) finalize() {
 		t := fv.evalSpec(env, ax.Expr).One()
 		fv.ctx.axioms = append(fv.ctx.axioms, t)
 		fv.assumed["axiom "+ax.Name] = true
+		// the axiom holds in every state: instantiate it for each heap version a spec function was applied to
+		// (evaluating it may record further versions; the list is walked until it stops growing)
+		seenAx := map[string]bool{t: true}
+		for i := 0; i < len(fv.axiomStateOrder); i++ {
+			stx := fv.axiomStates[fv.axiomStateOrder[i]]
+			envx := &SpecEnv{fv: fv, names: map[string]Val{}, cur: stx, old: stx}
+			if pkg != nil {
+				envx.pkg = pkg.Types
+			}
+			tx := fv.evalSpec(envx, ax.Expr).One()
+			if !seenAx[tx] {
+				seenAx[tx] = true
+				fv.ctx.axioms = append(fv.ctx.axioms, tx)
+			}
+		}
+	}
+	// frame of spec functions over the initialisation of new objects: a spec function whose footprint is one field
+	// has, on arguments that exist before an object is allocated, the same value in the heap in which that object's
+	// field has been initialised (what it reads from older objects are links to older objects: the heap before the
+	// allocation is closed under reachability, and the function follows only that one field)
+	for i := 0; i < len(fv.pureTupleOrder); i++ {
+		pt := fv.pureTuples[fv.pureTupleOrder[i]]
+		fam := ""
+		oneFamily := true
+		for _, k := range pt.keys {
+			f := k.Key
+			if j := strings.LastIndex(f, "$"); j >= 0 {
+				if d := strings.Index(f[j:], "."); d >= 0 {
+					f = f[:j+d]
+				}
+			}
+			if fam == "" {
+				fam = f
+			} else if fam != f {
+				oneFamily = false
+			}
+		}
+		if !oneFamily {
+			continue
+		}
+		idx := ""
+		prevs := make([]string, len(pt.heapTerms))
+		okAll := true
+		for j, t := range pt.heapTerms {
+			as, ok := fv.m.allocStores[t]
+			if !ok || (idx != "" && as.idx != idx) {
+				okAll = false
+				break
+			}
+			idx = as.idx
+			prevs[j] = as.prev
+		}
+		if !okAll || idx == "" {
+			continue
+		}
+		nargs := len(pt.sorts) - len(pt.heapTerms)
+		var decls, vars, guards []string
+		for j := 0; j < nargs; j++ {
+			vn := fmt.Sprintf("fa!q%d_%d", i, j)
+			decls = append(decls, fmt.Sprintf("(%s %s)", vn, pt.sorts[j]))
+			vars = append(vars, vn)
+			if j < len(pt.argKinds) {
+				switch pt.argKinds[j] {
+				case "ref", "slice.arr", "if.pay", "time.loc", "opaque":
+					guards = append(guards, fmt.Sprintf("(< %s %s)", vn, idx))
+				}
+			}
+		}
+		for _, cmp := range fv.m.Flatten(pt.rt) {
+			name := fmt.Sprintf("%s%s", pt.base, sanitize(cmp.Path))
+			newApp := App(name, append(append([]string(nil), vars...), pt.heapTerms...)...)
+			oldApp := App(name, append(append([]string(nil), vars...), prevs...)...)
+			fv.ctx.axioms = append(fv.ctx.axioms, fmt.Sprintf("(forall (%s) (! (=> %s (= %s %s)) :pattern (%s)))", strings.Join(decls, " "), And(guards...), newApp, oldApp, newApp))
+		}
+		// the older combination is a combination too (its own initialisation step, and the axioms, apply to it)
+		tk := pt.base + " " + strings.Join(prevs, " ")
+		if _, seen := fv.pureTuples[tk]; !seen && len(fv.pureTuples) < 200 {
+			fv.pureTuples[tk] = &pureTuple{base: pt.base, keys: pt.keys, heapTerms: prevs, sorts: pt.sorts, argKinds: pt.argKinds, rt: pt.rt}
+			fv.pureTupleOrder = append(fv.pureTupleOrder, tk)
+		}
 	}
 	// standard-library string predicates on literal constants are evaluated (ground facts)
 	if lits := fv.ctx.litOrder; len(lits) <= 80 {
